@@ -76,23 +76,29 @@ def _tla(v):
     raise TypeError(v)
 
 
-def mc_files(scn, tag, max_expire, defects, invariants, max_pad=0, helpers=()):
-    """helpers: which helpers of presence.py run (extension): subset of ('kill', 'unreg')."""
+def mc_files(scn, tag, max_expire, defects, invariants, max_pad=0, helpers=(), unsched=None):
+    """helpers: which helpers of presence.py run (extension): subset of ('kill', 'unreg').
+    unsched: (MaxPub, MaxSched) for the publish / _unschedule configuration (no containers)."""
     mod = 'MC_Presence_%s_%s' % (scn['name'], tag)
     ext = scn['ext']
-    ext_text = ('[srv |-> %s, plc |-> %s, sch |-> %s, sproot |-> %s, iorder |-> %s, sp |-> %s]' % (
-        _tla(ext['srv']), _tla(ext['plc']), _tla(ext['sch']), _tla(ext['sproot']),
-        _tla(ext['iorder']), _tla(ext['sp']) if helpers else '<<>>'))
+    ext_text = ('[srv |-> %s, plc |-> %s, sch |-> %s, sproot |-> %s, iorder |-> %s, fin |-> %s, '
+                'plcp |-> %s, sp |-> %s]' % (
+                    _tla(ext['srv']), _tla(ext['plc']), _tla(ext['sch']), _tla(ext['sproot']),
+                    _tla(ext['iorder']), _tla(ext['fin']), _tla(ext['plcp']),
+                    _tla(ext['sp']) if helpers or unsched else '<<>>'))
+    conts, inst = (scn['conts'], scn['inst']) if not unsched else ([], None)
     text = ('---- MODULE %s ----\nEXTENDS Presence\nScnHosts == %s\nScnConts == %s\n'
             'ScnInst == %s\nScnPaths == %s\nScnExt == %s\n====\n' % (
-                mod, _tla(scn['hosts']), _tla(scn['conts']), _tla(scn['inst']), _tla(scn['paths']),
-                ext_text))
+                mod, _tla(scn['hosts']), _tla(conts), _tla(inst) if inst else '<<>>',
+                _tla(scn['paths']), ext_text))
     percont = '{' + ', '.join(str(2 + i) for i in range(len(scn['endpoints']))) + '}'
     cfg = ['INIT Init', 'NEXT Next', 'CHECK_DEADLOCK FALSE', 'CONSTANTS',
            ' Hosts <- ScnHosts', ' Conts <- ScnConts', ' InstOf <- ScnInst', ' PathsOf <- ScnPaths',
            ' PerCont = %s' % percont, ' MaxExpire = %d' % max_expire, ' SymFirst = %s' % ('FALSE' if max_pad else 'TRUE'),
            ' MaxKill = %d' % (1 if helpers else 0),
            ' HelpKinds = {%s}' % ', '.join('"%s"' % k for k in helpers), ' Ext <- ScnExt',
+           ' MaxPub = %d' % (unsched[0] if unsched else 0),
+           ' MaxSched = %d' % (unsched[1] if unsched else 0),
            ' MaxPad = %d' % max_pad,
            ' Defects = {%s}' % ', '.join('"%s"' % d for d in defects)]
     cfg += ['INVARIANT %s' % i for i in invariants]
@@ -280,8 +286,10 @@ def _record_chunk(chunk):
     out = []
     for k, it in chunk:
         scn = pd.SCENARIOS[it[0]]
-        ext = it[1].startswith('x')          # extension traces: helpers of presence.py run too
-        if it[1] in ('rnd', 'xrnd'):
+        ext = it[1][0] in 'xu'               # x: helpers of presence.py run too; u: _unschedule
+        if it[1] == 'urnd':
+            lines, executed, skipped = pd.run_random_unsched(scn, random.Random(it[2]), it[3])
+        elif it[1] in ('rnd', 'xrnd'):
             lines, executed, skipped = pd.run_random(scn, random.Random(it[2]), it[3],
                                                      max_expire=0 if ext else 2, ext=ext)
         else:
@@ -360,23 +368,32 @@ def judge(ctx, traces, verdicts, extra=None):
     drift_examples = []
     drifting = {v['tid'] for v in verdicts if any(f.startswith('drift.') for f in v['fail'])}
     xt = dict(traces=0, lines=0, helper_calls=0, helper_writes_judged=0, undisturbed_runs=0, unexplained=0,
+              publication_calls=0, unschedule=collections.Counter(),
               clauses=collections.Counter(), observations=collections.Counter(), examples=[])
-    xt['traces'] = sum(1 for t in traces if t['src'].startswith('x'))
+    xt['traces'] = sum(1 for t in traces if t['src'][0] in 'xu')
     for v in verdicts:
         t = by_tid[v['tid']]
         fails = set(v['fail'])
-        if t['src'].startswith('x'):
+        if t['src'][0] in 'xu':
             # extension beyond the listed property (DESIGN.md 10.6): conformance class only
             xt['lines'] += 1
             if t['lines'][v['i']]['ev'] == 'acall':
                 xt['helper_calls'] += 1
                 evaluations += 1                 # judged by C17.noForeign (write log of the store)
+            if t['lines'][v['i']]['ev'] == 'pcall':
+                xt['publication_calls'] += 1
+                evaluations += 1                 # judged by C17.unscheduleOwner
+                if PROP in v['ex']:
+                    nontrivial.add(core.hist_hash(t['schedule']))
+                for e in v['ex']:
+                    if e.startswith('unsched.'):
+                        xt['unschedule'][e] += 1
             xt['helper_writes_judged'] += 1 if 'C17.helper' in v['ex'] else 0
             xt['undisturbed_runs'] += 1 if 'ext.atomic' in v['ex'] else 0
             for f in sorted(fails):
                 if f.startswith(PROP + '.'):
                     continue        # before the first helper line the trace is an ordinary one
-                if f == 'ext.kill.window':
+                if f in ('ext.kill.window', 'ext.unschedule.window'):
                     xt['observations']['%s %s' % (f, t['src'].split(':')[0])] += 1
                     continue
                 xt['clauses'][f] += 1
@@ -418,7 +435,7 @@ def judge(ctx, traces, verdicts, extra=None):
                     what='at line %d of %s (%s): %s' % (v['i'], t['tid'], t['src'], _show(line)),
                     replay_payload=dict(kind='presence', property=PROP, clause=f,
                                         scenario=t['scenario'], schedule=t['schedule'],
-                                        ext=t['src'].startswith('x'),
+                                        ext=t['src'][0] in 'xu',
                                         failed_line=v['i'], line=json.loads(_show(line)))))
     # shortest failing schedule first, per clause
     violations.sort(key=lambda x: (x['clause'], len(x['replay_payload']['schedule']),
@@ -444,6 +461,7 @@ def judge(ctx, traces, verdicts, extra=None):
         for d in xt['examples']:
             print('  ext: %s' % json.dumps(d, sort_keys=True))
     xt['clauses'] = dict(xt['clauses'])
+    xt['unschedule'] = dict(xt['unschedule'])
     xt['observations'] = dict(xt['observations'])
     ex = dict(trace_sources=dict(collections.Counter(t['src'].split(':')[0] for t in traces)),
               exercised=dict(flags), drift_examples=drift_examples,
@@ -525,6 +543,75 @@ def _ext_designed():
     return items
 
 
+# ---------------------------------------------------------------------------
+# trace/app/zk.py: publish() / _unschedule() (listed under C17): a terminal event
+# published by a host un-schedules the instance only while that host owns the placement.
+UNSCHED_INV = ['UnscheduleOwner', 'UnscheduleScope']
+
+
+def _unsched_mc(ctx):
+    """(title, result) of: the clean model (exhaustive), the model with the defect
+    "unschedNowhere" (the invariant must fail: vacuity control), the exists / delete
+    window (expected to fail: observation)."""
+    scn = pd.SCENARIOS['k2' if ctx.quick else 'a2b1']
+    bound = (2, 3) if ctx.quick else (2, 4)
+    runs = [('_unschedule %s: placement x publications, clean' % scn['name'],
+             mc_files(scn, 'u', 0, ['olderSteals'], UNSCHED_INV, unsched=bound)),
+            ('_unschedule %s: defect unschedNowhere, UnscheduleOwner must fail' % scn['name'],
+             mc_files(scn, 'ud', 0, ['olderSteals', 'unschedNowhere'], ['UnscheduleOwner'], unsched=bound)),
+            ('_unschedule %s: observation, UnscheduleOwnerNow expected to fail' % scn['name'],
+             mc_files(scn, 'uo', 0, ['olderSteals'], ['UnscheduleOwnerNow'], unsched=bound))]
+
+    def one(run):
+        _title, (mod, cfg, files) = run
+        return tlc.mc(SPEC_DIR, mod, cfg, extra_files=files, coverage=False, workers=2,
+                      timeout=100 if ctx.quick else 600)
+    with concurrent.futures.ThreadPoolExecutor(3) as ex:
+        results = list(ex.map(one, runs))
+    return [(t, r) for (t, _f), r in zip(runs, results)]
+
+
+def _unsched_designed():
+    """The schedules that matter: instance placed on A / withdrawn (placed nowhere) /
+    re-placed on B / no /placement at all, then a (late) event of A's container."""
+    items = []
+    for name in ('k2', 'px'):
+        scn = pd.SCENARIOS[name]
+        a_host, b_host = scn['hosts'][:2]
+        for inst in scn['paths']:
+            for ty in ('finished', 'killed', 'aborted', 'configured'):
+                pub = [('PRun', [a_host, inst, ty])]
+                items += [
+                    (name, 'ufix', [('Place', [inst, a_host]), ('Withdraw', [inst, a_host])] + pub),
+                    (name, 'ufix', [('Place', [inst, a_host]), ('Withdraw', [inst, a_host]),
+                                    ('Place', [inst, b_host])] + pub),
+                    (name, 'ufix', [('Place', [inst, a_host])] + pub),
+                    (name, 'ufix', [('RmRoot', [1])] + pub),
+                    (name, 'ufix', pub),
+                    (name, 'ufix', [('Place', [inst, a_host])] + pub + [('PRun', [b_host, inst, ty])]),
+                ]
+    return items
+
+
+def _unsched_schedules(ctx, runs):
+    items = _unsched_designed()
+    for title, res in runs:
+        if 'observation' in title and res['violated']:
+            labels = [(a, tlc.tlaval.split_args(b)) for a, b in res['cex']]
+            items.append((title.split()[1].rstrip(':'), 'ucex:unschedule_window', _sched(labels)))
+    scn = pd.SCENARIOS['k2']
+    mod, cfg, files = mc_files(scn, 'ugen', 0, ['olderSteals'], [], max_pad=45, unsched=(2, 4))
+    behaviours, cmd = tlc.simulate(SPEC_DIR, mod, cfg, num=20 if ctx.quick else 400, depth=45,
+                                   seed=ctx.seed * 41 + 7, procs=2 if ctx.quick else 4,
+                                   extra_files=files, timeout=120 if ctx.quick else 600)
+    ctx.cmds.append(cmd)
+    items += [('k2', 'utlc', _sched(b)) for b in behaviours]
+    names = ['k2', 'a2b1', 'px', 'py']
+    for k in range(60 if ctx.quick else 2000):
+        items.append((names[k % len(names)], 'urnd', ctx.seed * 1000003 + 700000 + k, 40))
+    return items
+
+
 def _ext_schedules(ctx, obs):
     items, info = _ext_designed(), {}
     for (key, inv, what), res in obs:
@@ -548,8 +635,9 @@ def _ext_schedules(ctx, obs):
 
 def run(ctx):
     t0 = time.time()
-    pool = concurrent.futures.ThreadPoolExecutor(3)
+    pool = concurrent.futures.ThreadPoolExecutor(4)
     f_obs = pool.submit(_ext_obs, ctx)
+    f_uns = pool.submit(_unsched_mc, ctx)
     items = _model_check(ctx)
     ctx.log('model checking done (%.0fs)' % (time.time() - t0))
     f_ext = pool.submit(_ext_mc, ctx)           # long; overlaps the replay, joined before the verdict
@@ -558,9 +646,22 @@ def run(ctx):
         f_cov = ex.submit(_cover, ctx)
         obs = f_obs.result()
         f_xs = ex.submit(_ext_schedules, ctx, obs)
+        uns_runs = f_uns.result()
+        uitems = _unsched_schedules(ctx, uns_runs)
         sim = f_sim.result()
         cover, cover_info = f_cov.result()
         xitems, xinfo = f_xs.result()
+    unsched = dict(spec='specs/node/Presence.tla (publish / _unschedule section), clause '
+                        'C17.unscheduleOwner of PresenceTrace.tla', model_runs=[])
+    for title, res in uns_runs:
+        ctx.add_mc(title, res)
+        unsched['model_runs'].append(dict(name=title, distinct=res['distinct'], violated=res['violated'] or '',
+                                          complete=res['ok']))
+        if 'clean' in title and (res['violated'] or not res['ok']):
+            raise tlc.MachineryError('Presence.tla: %s violated in the clean _unschedule model' % res['violated'])
+        if 'must fail' in title and res['violated'] != 'UnscheduleOwner':
+            raise tlc.MachineryError('vacuity: UnscheduleOwner does not reject the defect unschedNowhere')
+    xitems = xitems + uitems
     for (key, inv, _what), res in obs:
         ctx.add_mc('extension observation %s: %s expected to fail (k2, 1 helper run)' % (key, inv), res)
         if not res['violated']:
@@ -582,9 +683,17 @@ def run(ctx):
     ctx.cmds.append(stats['cmd'])
     # which observations the real code reproduced (the counterexample's trace shows the window)
     windows = {v['tid'] for v in verdicts if 'ext.kill.window' in v['fail']}
+    uwindows = {v['tid'] for v in verdicts if 'ext.unschedule.window' in v['fail']}
     for t in traces:
         if t['src'].startswith('xcex:') and t['tid'] in windows:
             xinfo[t['src'].split(':', 1)[1]]['reproduced_on_code'] = True
+        if t['src'].startswith('ucex:'):
+            unsched['window_reproduced_on_code'] = t['tid'] in uwindows
+    if 'window_reproduced_on_code' in unsched:
+        print('OBSERVATION ext.unschedule.window: the scheduler withdraws the placement between '
+              '_unschedule\'s exists and its delete of /scheduled/<app> -- %s'
+              % ('reproduced on the code' if unsched['window_reproduced_on_code']
+                 else 'NOT reproduced on the code'))
     ext_runs = f_ext.result()
     pool.shutdown()
     for title, _name, res in ext_runs:
@@ -601,7 +710,7 @@ def run(ctx):
         spec='specs/node/Presence.tla (helpers section), clauses ext.kill.* of PresenceTrace.tla',
         model_runs=[dict(name=title, distinct=res['distinct'], generated=res['generated'],
                          complete=res['ok'], violated=res['violated'] or '') for title, _n, res in ext_runs],
-        invariants=EXT_INV, observations=xinfo))
+        invariants=EXT_INV, observations=xinfo), unschedule=unsched)
     return judge(ctx, traces, verdicts, extra=dict(transition_cover=cover_info, extensions=extensions))
 
 
